@@ -171,9 +171,9 @@ PROPS = {
     'C02': dict(
         props_file='Props/C02.v',
         components=['c02'],
-        comp_names={6: 'node sequences (every FSM call is in the compared trace)', 1001: 'cluster churn histories', 1007: 'stale tail + snapshot + leader change + new follower', 1009: 'growing a single-voter cluster'},
+        comp_names={6: 'node sequences (every FSM call is in the compared trace)', 1001: 'cluster churn histories', 1007: 'stale tail + snapshot + leader change + new follower', 1009: 'growing a single-voter cluster', 1013: 'Figure 8 on five servers (old-term entries on a majority, nothing of the new term; then overwritten)'},
         rule='(i) the C10 crash/restart node sequences (FSM Apply/Restore/StoreConfiguration calls are part of the trace diffed against the model); (ii) real clusters: churn mix (partitions, crash cuts, restarts, snapshots, '
-             'transfers, duplicated/lost responses) and the snapshot + leader-change family with per-server TrailingLogs reload and a brand-new follower; monitors on every FSM call of every server: same entry at an index everywhere, '
+             'transfers, duplicated/lost responses) the snapshot + leader-change family with per-server TrailingLogs reload and a brand-new follower, and the Figure-8 family (content filter on one link: a follower is given only the old-term entries); monitors on every FSM call of every server: same entry at an index everywhere, '
              'increasing without gap or repeat per instance, applied => durably on a voter majority at that instant. Non-trivial = history with a leader and an ack / sequence with crash cut',
         assumptions=['cluster histories are sampled schedules', 'payload ids are unique per Apply call'],
         timeout={'quick': 900, 'thorough': 7200},
